@@ -222,6 +222,11 @@ func runC11(cs CaseSpec) *CaseResult {
 		cst.crashAt = 0
 	}
 	sp := ScheduleSpec{Steps: 1, Shape: "uniform", SubmitProb: 0.6, TxKinds: 3, TruncProb: 0.1}
+	if cs.I("hugetx", 0) == 1 {
+		nw.HugeTx = true
+		sp.BurstProb = 0.1
+		res.count("histories_with_transactions_of_tens_of_kilobytes", 1)
+	}
 	joinAt := -1
 	if cs.I("joins", 0) > 0 {
 		joinAt = 20 + rng.Intn(40)
@@ -672,6 +677,15 @@ func init() {
 				}
 				if i%4 == 1 {
 					c.P["second"] = 1
+				}
+				if i%12 == 7 {
+					// payloads of tens of kilobytes (bursts of them in one event): what
+					// the restart reads back from the database comes in batches of
+					// events that weigh megabytes
+					c.P["hugetx"] = 1
+					c.P["steps"] = 260
+					c.P["k"] = int64(2500 + rg.Intn(3000))
+					c.P["cont"] = 40
 				}
 				if i%3 == 2 {
 					// events that the victim refuses are offered to it before the crash
